@@ -30,7 +30,7 @@ For each change k = 1, 2, 3 deliver in {out}/k/ :
 How to work:
   - Python is /venv/bin/python (all dependencies installed). ALWAYS set PYTHONPATH={wt}/perception_eval so that the worktree's copy of the package is imported (the default install points elsewhere). Verify with: PYTHONPATH={wt}/perception_eval /venv/bin/python -c "import perception_eval; print(perception_eval.__file__)"
   - Existing tests: cd {wt} && PYTHONPATH={wt}/perception_eval /venv/bin/python -m pytest -q -p no:cacheprovider --timeout=900 -n 6   (about 1-2 minutes; 110 tests must pass). Tests live in {wt}/perception_eval/test; test helpers (e.g. test.util.dummy_object.make_dummy_data) may be handy for building objects in your demo (run demos from {wt} so that `import test.util...` style imports work, or build objects directly with the library's classes).
-  - For each change: apply it, run the full suite (must pass), run demo.py (must fail), then `git stash` or `git checkout -- .` to undo, run demo.py again (must pass). Save the diff BEFORE undoing. Leave the worktree clean (git status clean) at the end.
+  - For each change: apply it, run the full suite (must pass), run demo.py (must fail), then `git checkout -- .` to undo (do NOT use `git stash`: the stash is shared between worktrees of the same repository and other people are working in sibling worktrees), run demo.py again (must pass). Save the diff BEFORE undoing. Leave the worktree clean (git status clean) at the end.
   - Keep each patch small (a few lines).
 When done, reply with a short summary per change (file/function touched, what manifests it) and confirm that for each one: suite passed with the change, demo failed with it, demo passed without it.
 """)
